@@ -303,9 +303,9 @@ def obligations(tier):
                   desc='metadata object with a symbolic string of 1..%d arbitrary code points and a symbolic integer, '
                        'every own/inherited encoding, three levels: read back equal as a JSON value' % NM,
                   bounds={'string_len': [1, NM], 'int': [-1, 1], 'encodings': len(menc)}))
-    K = 4 if quick else 6
+    K = 4 if quick else 5
     obs.append(Ob('history[K<=%d]' % K, ob_history, dict(K=K, encs=['utf-16', 'latin-1'] if quick else
-                                                        ['utf-8', 'utf-16', 'latin-1', 'utf-32-be'], N=1 if quick else 2),
+                                                        ['utf-16', 'latin-1', 'utf-32-be'], N=1 if quick else 2),
                   must_reach=['DiffXWriter._new_container_section', 'DiffXReader.iter_sections'], path_timeout=30,
                   desc='container histories up to %d containers, each declaring an encoding or not, symbolic probe '
                        'preambles under the inherited encoding' % K,
